@@ -51,11 +51,12 @@ fn one<C: Cs>(ctx: &Ctx, st: &Setup<C>, other: Option<&Setup<C>>, r: &mut impl r
         }
     };
     // revealed attributes
-    for k in 0..revealed.len() {
+    let rk: Vec<usize> = if revealed.len() <= 6 { (0..revealed.len()).collect() } else { vec![0, 4, 5, revealed.len() / 2, 62, 63, revealed.len() - 1].into_iter().filter(|k| *k < revealed.len()).collect() };
+    for k in rk {
         let mut rv = revealed.clone();
         rv[k].value = Integer::from(&rv[k].value ^ 1u32);
         reject(&format!("revealed-attribute-changed#{k}"), &|| verify(&proof, &cpk, st.pk(), &bases, &rv, &u, n));
-        for j2 in k + 1..revealed.len() {
+        for j2 in (k + 1..revealed.len()).take(4) {
             if revealed[k].value != revealed[j2].value {
                 let mut rv = revealed.clone();
                 rv.swap(k, j2);
@@ -87,7 +88,25 @@ fn one<C: Cs>(ctx: &Ctx, st: &Setup<C>, other: Option<&Setup<C>>, r: &mut impl r
     c4.h = Integer::from(&c4.h * &c4.h) % &c4.N;
     reject("commitment-key-h-squared", &|| verify(&proof, &c4, st.pk(), &bases, &revealed, &u, n));
     // other hidden-position sets (same size: same number of revealed attributes)
-    for u2 in all_subsets(n) {
+    let others: Vec<Vec<usize>> = if n <= 5 {
+        all_subsets(n)
+    } else {
+        let mut v: Vec<Vec<usize>> = vec![vec![], vec![0], vec![n - 1]];
+        for k in 0..u.len() {
+            for delta in [1usize, 64] {
+                let mut x = u.clone();
+                x[k] = (x[k] + delta) % n;
+                x.sort();
+                x.dedup();
+                v.push(x);
+            }
+        }
+        if !u.is_empty() {
+            v.push(u[..u.len() - 1].to_vec());
+        }
+        v
+    };
+    for u2 in others {
         if u2 != u {
             let rev2: Vec<CL03Message> = if u2.len() == u.len() { revealed.clone() } else { (0..n).filter(|i| !u2.contains(i)).map(|i| msgs[i].clone()).collect() };
             reject(&format!("hidden-set-other#{:?}", u2), &|| verify(&proof, &cpk, st.pk(), &bases, &rev2, &u2, n));
@@ -147,6 +166,14 @@ fn run<C: Cs>(ctx: &Ctx, idx: u64, nmax: usize) {
         return;
     };
     let other = Setup::<C>::new(ctx, nmax + 1);
+    // many attributes, hidden positions deep in the vector
+    if idx == 0 || idx == 200 {
+        if let Some(stb) = Setup::<C>::new(ctx, 71) {
+            one::<C>(ctx, &stb, other.as_ref(), &mut r, 70, vec![5, 64], false);
+            one::<C>(ctx, &stb, other.as_ref(), &mut r, 33, vec![32], true);
+            ctx.count("large_attribute_count_proofs", 2);
+        }
+    }
     for n in 1..=nmax {
         for (k, u) in all_subsets(n).into_iter().enumerate() {
             let tamper = (n == 2 && u == vec![1]) || (n == 3 && u == vec![0, 2]) || (n == 1 && u.is_empty()) || (!ctx.quick() && k % 4 == 1);
